@@ -1,0 +1,51 @@
+//go:build verif
+
+package sstables
+
+import (
+	"sync"
+
+	"github.com/thomasjungblut/go-sstables/recordio"
+	rProto "github.com/thomasjungblut/go-sstables/recordio/proto"
+)
+
+// This file only exists under the "verif" build tag. It lets an external verification harness observe the creation
+// of stream writers it does not construct itself (memstore flushes, compactions) and substitute the data and index
+// writers with failing ones, the same way failingRecordIoWriter does in sstable_writer_test.go.
+
+var verifWriterOpenMu sync.RWMutex
+var verifWriterOpenHook func(writer *SSTableStreamWriter)
+
+// VerifSetWriterOpenHook installs (or with nil removes) a callback that runs at the end of every SSTableStreamWriter.Open.
+// The callback may block, which parks the goroutine that is creating the table.
+func VerifSetWriterOpenHook(hook func(writer *SSTableStreamWriter)) {
+	verifWriterOpenMu.Lock()
+	defer verifWriterOpenMu.Unlock()
+	verifWriterOpenHook = hook
+}
+
+func verifOnWriterOpen(writer *SSTableStreamWriter) {
+	verifWriterOpenMu.RLock()
+	hook := verifWriterOpenHook
+	verifWriterOpenMu.RUnlock()
+	if hook != nil {
+		hook(writer)
+	}
+}
+
+// VerifBasePath returns the directory this writer writes into.
+func (writer *SSTableStreamWriter) VerifBasePath() string {
+	return writer.opts.basePath
+}
+
+// VerifWrapWriters replaces the data and/or index writer of an opened stream writer (nil leaves one untouched).
+func (writer *SSTableStreamWriter) VerifWrapWriters(
+	wrapData func(recordio.WriterI) recordio.WriterI,
+	wrapIndex func(rProto.WriterI) rProto.WriterI) {
+	if wrapData != nil {
+		writer.dataWriter = wrapData(writer.dataWriter)
+	}
+	if wrapIndex != nil {
+		writer.indexWriter = wrapIndex(writer.indexWriter)
+	}
+}
